@@ -10,6 +10,7 @@ import (
 	"sync"
 	"time"
 
+	remoteexecution "github.com/bazelbuild/remote-apis/build/bazel/remote/execution/v2"
 	"github.com/buildbarn/bb-remote-execution/pkg/builder"
 	"github.com/buildbarn/bb-remote-execution/pkg/cas"
 	"github.com/buildbarn/bb-storage/pkg/filesystem"
@@ -17,6 +18,7 @@ import (
 	"golang.org/x/sync/semaphore"
 	"google.golang.org/grpc/codes"
 	"google.golang.org/grpc/status"
+	"google.golang.org/protobuf/proto"
 
 	"verifharness/internal/hx"
 )
@@ -363,12 +365,46 @@ func (r *rig) naiveModelCompare(store []casLine, hash string, size int64, faults
 	if !tell(fmt.Sprintf("cfg %d", r.hashLen)) {
 		return
 	}
+	// The real storage has one name space: a blob stored as a file is also what GetDirectory of
+	// its digest decodes (the empty blob is the empty Directory), and a Directory blob is also a
+	// file. The model keeps two tables, so each blob is told in both roles.
+	hasDir, hasBlob := map[string]bool{}, map[string]bool{}
+	for _, l := range store {
+		if strings.HasPrefix(l.line, "dir ") {
+			hasDir[l.key] = true
+		} else {
+			hasBlob[l.key] = true
+		}
+	}
 	for _, l := range store {
 		if r.cas.missing[l.key] {
 			continue
 		}
 		if !tell(l.line) {
 			return
+		}
+		w := strings.Fields(l.line)
+		h, sz, ok := untokDig(w[1])
+		b, have := r.cas.blobs[l.key]
+		if !ok || !have {
+			continue
+		}
+		if w[0] == "blob" && !hasDir[l.key] {
+			hasDir[l.key] = true
+			var m remoteexecution.Directory
+			if proto.Unmarshal(b, &m) == nil {
+				if !tell(dirLine(h, sz, &m)) {
+					return
+				}
+			} else if !tell(dirLine(h, sz, nil)) {
+				return
+			}
+		}
+		if w[0] == "dir" && !hasBlob[l.key] {
+			hasBlob[l.key] = true
+			if !tell("blob " + tokDig(h, sz) + " " + tokBytes(string(b))) {
+				return
+			}
 		}
 	}
 	line := strings.Join(append([]string{"nmerge", tokDig(hash, size)}, faults...), " ")
@@ -381,8 +417,19 @@ func (r *rig) naiveModelCompare(store []casLine, hash string, size int64, faults
 	case merr == nil:
 		actual = "ok " + got
 	case exp == "err:*":
-		actual = "err:*" // only "error" is determined when a download failed
+		actual = "err:*" // only "error" is determined
 		flags["naive-model-err-download"]++
+	case strings.HasPrefix(exp, "err:* "):
+		// a download failed: the tree left behind is nondeterministic but lies within the model's
+		flags["naive-model-err-download"]++
+		within, perr := listingWithin(got, exp[len("err:* "):])
+		if perr != nil || within != "" {
+			flags["naive-model-err-download-tree"]++
+			actual = "err:* " + got + " (not within the model's tree: " + within + ")"
+		} else {
+			flags["naive-model-err-download-tree"]++
+			actual = exp
+		}
 	default:
 		actual = "err:" + errClass(merr) + " " + got
 	}
@@ -431,4 +478,95 @@ func (g *generator) genNaiveFaults(d genDir) []string {
 		out = append(out, "mkdir:"+tokBytes("never")+","+tokBytes("issued"))
 	}
 	return out
+}
+
+// ---- listings as trees (for "the real tree lies within the model's") ----
+
+type lnode struct {
+	kind     string // dir | file | sym | other
+	children map[string]*lnode
+}
+
+// parseListing parses `[name=dir[...],name=file:...,name=sym:...]`.
+func parseListing(s string, i int) (*lnode, int, error) {
+	bad := fmt.Errorf("malformed listing")
+	if i >= len(s) || s[i] != '[' {
+		return nil, i, bad
+	}
+	i++
+	n := &lnode{kind: "dir", children: map[string]*lnode{}}
+	if i < len(s) && s[i] == ']' {
+		return n, i + 1, nil
+	}
+	for {
+		j := strings.IndexByte(s[i:], '=')
+		if j < 0 {
+			return nil, i, bad
+		}
+		name := s[i : i+j]
+		i += j + 1
+		switch {
+		case strings.HasPrefix(s[i:], "dir["):
+			c, k, err := parseListing(s, i+3)
+			if err != nil {
+				return nil, k, err
+			}
+			n.children[name] = c
+			i = k
+		default:
+			k := i
+			for k < len(s) && s[k] != ',' && s[k] != ']' {
+				k++
+			}
+			kind := "other"
+			if strings.HasPrefix(s[i:k], "file:") {
+				kind = "file"
+			} else if strings.HasPrefix(s[i:k], "sym:") {
+				kind = "sym"
+			}
+			n.children[name] = &lnode{kind: kind}
+			i = k
+		}
+		if i >= len(s) {
+			return nil, i, bad
+		}
+		if s[i] == ']' {
+			return n, i + 1, nil
+		}
+		if s[i] != ',' {
+			return nil, i, bad
+		}
+		i++
+	}
+}
+
+func lnodeWithin(a, b *lnode, p string) string {
+	for name, ca := range a.children {
+		cb, ok := b.children[name]
+		if !ok {
+			return p + "/" + name + " exists"
+		}
+		if ca.kind != cb.kind {
+			return p + "/" + name + " is a " + ca.kind
+		}
+		if ca.kind == "dir" {
+			if w := lnodeWithin(ca, cb, p+"/"+name); w != "" {
+				return w
+			}
+		}
+	}
+	return ""
+}
+
+// listingWithin: "" if every entry of listing a is an entry of the same kind of listing b.
+func listingWithin(a, b string) (string, error) {
+	ta, _, err := parseListing(a, 0)
+	if err != nil {
+		return "", err
+	}
+	tb, _, err := parseListing(b, 0)
+	if err != nil {
+		return "", err
+	}
+	return lnodeWithin(ta, tb, ""), nil
 }
